@@ -299,7 +299,16 @@ func TestWorker(t *testing.T) {
 		w.WriteByte('\n')
 		w.Flush()
 	}
-	dir, err := os.MkdirTemp(filepath.Dir(job.Out), "scratch")
+	// scratch directory for mmap files: memory-backed when available (creating
+	// and syncing a 1 MiB file per run on disk dominates the run time otherwise)
+	base := filepath.Dir(job.Out)
+	if st, err := os.Stat("/dev/shm"); err == nil && st.IsDir() && os.Getenv("VERIF_SCRATCH_ON_DISK") == "" {
+		base = "/dev/shm"
+	}
+	dir, err := os.MkdirTemp(base, "verif-zsim-scratch")
+	if err != nil {
+		dir, err = os.MkdirTemp(filepath.Dir(job.Out), "scratch")
+	}
 	if err != nil {
 		t.Fatal(err)
 	}
